@@ -512,6 +512,7 @@ func parentMain(args []string) int {
 	}
 	os.MkdirAll(repDir, 0o755)
 	sigCount := map[string]int{}
+	nfile := 0
 	var lines []string
 	for vi := range agg.Violations {
 		v := &agg.Violations[vi]
@@ -536,7 +537,8 @@ func parentMain(args []string) int {
 		if sigCount[v.Sig] > 3 || len(sigCount) > 20 {
 			continue
 		}
-		path := filepath.Join(repDir, fmt.Sprintf("%s-%s-%d-case%d-%d.json", p.ID, *tier, *seed, v.Index, sigCount[v.Sig]))
+		nfile++
+		path := filepath.Join(repDir, fmt.Sprintf("%s-%s-%d-case%d-%d.json", p.ID, *tier, *seed, v.Index, nfile))
 		rep := map[string]any{
 			"property": p.ID, "tier": *tier, "seed": *seed, "index": v.Index, "name": v.Name,
 			"case": v.Desc, "signature": v.Sig, "what": v.What, "witness": v.Witness,
@@ -577,6 +579,16 @@ func parentMain(args []string) int {
 
 	for _, l := range lines {
 		fmt.Println(l)
+	}
+	if len(sigCount) > 0 {
+		var sigs []string
+		for k := range sigCount {
+			sigs = append(sigs, k)
+		}
+		sort.Strings(sigs)
+		for _, k := range sigs {
+			fmt.Printf("  SIGNATURE %s x%d\n", k, sigCount[k])
+		}
 	}
 	for _, s := range inconc {
 		fmt.Println("INCONCLUSIVE:", s)
